@@ -11,6 +11,9 @@ Model of sharepoint2text/sharepoint_io/client.py (Graph listing over the urllib 
 * Fuel bounds only what is the environment's business: the length of `@odata.nextLink` chains and the
   folder depth the server presents (a server that lists a folder inside itself keeps the real client
   busy forever, too).  It appears in the theorems.
+* Start folders (`FileFilter.folder_paths`): `str.strip("/")` and `urllib.parse.quote(·, safe="/")` are modelled
+  (`stripSlash`, `quote` over the UTF-8 bytes), the by-path request is `Url.byPath`; `list_files_filtered` and the
+  walk below it are modelled as GENERATORS (`Part`: values handed out + terminal outcome; section "start folders").
 * `datetime.fromisoformat` (on a string without fractional seconds), `str.lower` and `fnmatch.fnmatch`
   are parameters (`iso`, `lower`, `glob`) of the filter model; concrete instances used by the driver
   (`isoStrict`, `asciiLower`, `globMatch`) are at the end of this file.
@@ -27,6 +30,7 @@ inductive Url
   | children (site : Str) (item : Option Str)
   | cursor (item : Option Str) (off : Nat)
   | raw (s : Str)
+  | byPath (site : Str) (enc : Str)   -- `…/drive/root:/{quote(path)}` built by `_get_folder_by_path`
   deriving DecidableEq, Repr
 
 /-- the fields of a Graph driveItem with a `file` facet that `_parse_file_item` copies and the property mentions -/
@@ -50,6 +54,7 @@ structure Obj where
   id : Option Str := none            -- `id` if it is a str
   value : List Item := []            -- `value` (missing = [])
   next : Option Url := none          -- `@odata.nextLink` (none = missing / falsy)
+  hasFolder : Bool := false          -- `"folder" in data` (looked at by `_get_folder_by_path` only)
   deriving DecidableEq, Repr
 
 inductive Body
@@ -328,6 +333,147 @@ def listFiltered (c : Cfg) (t : Transport) (iso : Str → Option Int) (lower : S
     | (.error e, s) => (.error e, s)
     | (.ok files, s) => (.ok (files.filter (matchesF c iso lower glob f)), s)
 
+/-! ### start folders addressed by path (`FileFilter.folder_paths`) and lazy (generator) delivery
+
+`list_files_filtered` is a generator: what the consumer has received when an exception leaves it is part
+of the behaviour.  A generator run to its end is a `Part`: the values yielded, in order, and how it ended
+(`err = none`: exhausted, `err = some e`: `e` was raised after the yielded values).  `G.toR` is the
+consumer `list(gen)` (partial results are lost when it raises). -/
+
+/-- `str.strip("/")` -/
+def stripSlash (s : Str) : Str :=
+  ((s.dropWhile (· == '/')).reverse.dropWhile (· == '/')).reverse
+
+/-- UTF-8 bytes of a code point (`str.encode("utf-8")`, one character) -/
+def utf8 (n : Nat) : List Nat :=
+  if n < 0x80 then [n]
+  else if n < 0x800 then [0xC0 + n / 64, 0x80 + n % 64]
+  else if n < 0x10000 then [0xE0 + n / 4096, 0x80 + n / 64 % 64, 0x80 + n % 64]
+  else [0xF0 + n / 262144, 0x80 + n / 4096 % 64, 0x80 + n / 64 % 64, 0x80 + n % 64]
+
+/-- upper-case hexadecimal digit -/
+def hexDigit (d : Nat) : Char := if d < 10 then Char.ofNat (48 + d) else Char.ofNat (55 + d)
+
+def pctByte (b : Nat) : List Char := ['%', hexDigit (b / 16), hexDigit (b % 16)]
+
+/-- the characters `urllib.parse.quote(·, safe="/")` leaves alone: ASCII letters, digits, `_.-~` and `/` -/
+def quoteSafe (ch : Char) : Bool :=
+  ch.isAlphanum || ch == '_' || ch == '.' || ch == '-' || ch == '~' || ch == '/'
+
+def quoteChar (ch : Char) : List Char :=
+  if quoteSafe ch then [ch] else (utf8 ch.toNat).flatMap pctByte
+
+/-- `urllib.parse.quote(s, safe="/")` -/
+def quote (s : Str) : Str := s.flatMap quoteChar
+
+/-- `exc.status_code == 404` in `_get_folder_by_path`: the request error that means "no such folder" -/
+def notFound : Err → Bool
+  | .request (some st) _ => st == 404
+  | _ => false
+
+/-- `_get_folder_by_path`: the item at `path` if it has a `folder` facet; `none` when it has none or when the
+    request error carries status 404 -/
+def getFolderByPath (c : Cfg) (t : Transport) (site path : Str) (s : St) : R (Option Obj) :=
+  match getJson c t (.byPath site (quote (stripSlash path))) s with
+  | (.ok o, s) => (.ok (if o.hasFolder then some o else none), s)
+  | (.error e, s) => if notFound e then (.ok none, s) else (.error e, s)
+
+/-- what a generator yielded and how it ended -/
+structure Part (α : Type) where
+  out : List α
+  err : Option Err
+  deriving DecidableEq, Repr
+
+abbrev G (α : Type) := Part α × St
+
+/-- the consumer `list(gen)` -/
+def G.toR {α : Type} (g : G α) : R (List α) :=
+  (match g.1.err with | none => .ok g.1.out | some e => .error e, g.2)
+
+/-- `for x in gen: if keep(x): yield x` -/
+def G.filter {α : Type} (keep : α → Bool) (g : G α) : G α := (⟨g.1.out.filter keep, g.1.err⟩, g.2)
+
+/-- `_list_items_paginated` as a generator: the items of a page are yielded after that page has arrived -/
+def pagesL {α : Type} (c : Cfg) (t : Transport) (proj : Item → Option α) : Nat → Url → St → G α
+  | 0, _, s => (⟨[], some .outOfFuel⟩, s)
+  | fuel + 1, u, s =>
+    match getJson c t u s with
+    | (.error e, s) => (⟨[], some e⟩, s)
+    | (.ok o, s) =>
+      let here := o.value.filterMap proj
+      match o.next with
+      | none => (⟨here, none⟩, s)
+      | some u' =>
+        match pagesL c t proj fuel u' s with
+        | (p, s) => (⟨here ++ p.out, p.err⟩, s)
+
+/-- the folder loop of `_walk_drive_items` as a generator (`yield from` the recursive walk) -/
+def forFoldersL (rec : Str → Str → St → G FileMeta) (parent : Str) :
+    List (Str × Option Str) → St → G FileMeta
+  | [], s => (⟨[], none⟩, s)
+  | (name, id) :: rest, s =>
+    match id with
+    | none => forFoldersL rec parent rest s
+    | some fid =>
+      if fid.isEmpty then forFoldersL rec parent rest s
+      else
+        match rec fid (childPath parent name) s with
+        | (⟨a, some e⟩, s) => (⟨a, some e⟩, s)
+        | (⟨a, none⟩, s) =>
+          match forFoldersL rec parent rest s with
+          | (p, s) => (⟨a ++ p.out, p.err⟩, s)
+
+/-- `_walk_drive_items` as a generator: the files of the folder (page by page), then — after the folder's
+    sub-folders have been collected by `_get_folders_from_url`, which is not a generator — each sub-folder -/
+def walkL (c : Cfg) (t : Transport) (site : Str) : Nat → Option Str → Str → St → G FileMeta
+  | 0, _, _, s => (⟨[], some .outOfFuel⟩, s)
+  | fuel + 1, item, parent, s =>
+    let url := Url.children site item
+    match pagesL c t (fileOf parent) fuel url s with
+    | (⟨files, some e⟩, s) => (⟨files, some e⟩, s)
+    | (⟨files, none⟩, s) =>
+      match getFolders c t fuel url s with
+      | (.error e, s) => (⟨files, some e⟩, s)
+      | (.ok folders, s) =>
+        match forFoldersL (fun fid p s => walkL c t site fuel (some fid) p s) parent folders s with
+        | (p, s) => (⟨files ++ p.out, p.err⟩, s)
+
+/-- `_walk_and_filter`; `path = []` stands for `folder_path` being `None` or `""` (both falsy: whole drive) -/
+def walkAndFilterL (c : Cfg) (t : Transport) (keep : FileMeta → Bool) (site : Str) (fuel : Nat)
+    (path : Str) (s : St) : G FileMeta :=
+  if path.isEmpty then (walkL c t site fuel none [] s).filter keep
+  else
+    match getFolderByPath c t site path s with
+    | (.error e, s) => (⟨[], some e⟩, s)
+    | (.ok none, s) => (⟨[], none⟩, s)
+    | (.ok (some o), s) => (walkL c t site fuel o.id (stripSlash path) s).filter keep
+
+/-- the `for folder_path in target_folders: yield from self._walk_and_filter(...)` loop -/
+def forStartL (c : Cfg) (t : Transport) (keep : FileMeta → Bool) (site : Str) (fuel : Nat) :
+    List Str → St → G FileMeta
+  | [], s => (⟨[], none⟩, s)
+  | p :: ps, s =>
+    match walkAndFilterL c t keep site fuel p s with
+    | (⟨a, some e⟩, s) => (⟨a, some e⟩, s)
+    | (⟨a, none⟩, s) =>
+      match forStartL c t keep site fuel ps s with
+      | (r, s) => (⟨a ++ r.out, r.err⟩, s)
+
+/-- `list_files_filtered` (any `folder_paths`) as the generator it is -/
+def listFilteredL (c : Cfg) (t : Transport) (iso : Str → Option Int) (lower : Str → Str)
+    (glob : Str → Str → Bool) (f : Filter) (folders : List Str) (fuel : Nat) (s : St) : G FileMeta :=
+  match getSiteId c t s with
+  | (.error e, s) => (⟨[], some e⟩, s)
+  | (.ok site, s) =>
+    if folders.isEmpty then walkAndFilterL c t (matchesF c iso lower glob f) site fuel [] s
+    else forStartL c t (matchesF c iso lower glob f) site fuel folders s
+
+/-- `list_all_files` never hands out partial results: it is `list(self._walk_drive_items(...))` -/
+def listAllL (c : Cfg) (t : Transport) (fuel : Nat) (s : St) : G FileMeta :=
+  match getSiteId c t s with
+  | (.error e, s) => (⟨[], some e⟩, s)
+  | (.ok site, s) => walkL c t site fuel none [] s
+
 /-! ### the abstract library and the healthy fake Graph server -/
 
 /-- a folder's children (a forest) -/
@@ -393,6 +539,62 @@ def Lib.folderIds : Lib → List Str
   | .other r => r.folderIds
   | .folder _ id k r => id :: (k.folderIds ++ r.folderIds)
 
+/-! path addressing on the server: `…/root:/{path}` answers with the item at that path -/
+
+inductive Node
+  | file (f : FileItem)
+  | folder (id : Str) (kids : Lib)
+  deriving DecidableEq, Repr
+
+/-- the first child with a `file` or `folder` facet whose name satisfies `p` -/
+def firstNamed (p : Str → Bool) : Lib → Option Node
+  | .nil => none
+  | .file f r => if p f.name then some (.file f) else firstNamed p r
+  | .other r => firstNamed p r
+  | .folder n id k r => if p n then some (.folder id k) else firstNamed p r
+
+/-- follow the segments `cs` from a node; `eq seg name` decides whether a child is meant by a segment -/
+def nodeAt (eq : Str → Str → Bool) : List Str → Node → Option Node
+  | [], nd => some nd
+  | _ :: _, .file _ => none
+  | c :: cs, .folder _ k =>
+    match firstNamed (eq c) k with
+    | none => none
+    | some nd => nodeAt eq cs nd
+
+/-- SPEC: the folder addressed by the path components `cs` below the drive root (names compared as they are);
+    the empty path is the drive root itself (id `none`) -/
+def folderAt (cs : List Str) (L : Lib) : Option (Option Str × Lib) :=
+  match cs with
+  | [] => some (none, L)
+  | _ :: _ =>
+    match nodeAt (fun c nm => nm == c) cs (.folder [] L) with
+    | some (.folder id k) => some (some id, k)
+    | _ => none
+
+def joinPath : List Str → Str
+  | [] => []
+  | c :: cs => if cs.isEmpty then c else c ++ '/' :: joinPath cs
+
+/-- segments of a `/`-separated string: (first segment, the others) -/
+def splitRaw : Str → Str × List Str
+  | [] => ([], [])
+  | ch :: r => if ch == '/' then ([], (splitRaw r).1 :: (splitRaw r).2) else (ch :: (splitRaw r).1, (splitRaw r).2)
+
+/-- non-empty segments of a `/`-separated string -/
+def splitSlash (s : Str) : List Str := ((splitRaw s).1 :: (splitRaw s).2).filter (fun x => !x.isEmpty)
+
+/-- the healthy server's answer to `root:/{enc}`: it compares each request segment with the percent-encoded
+    name of the children (`quote` is injective, `quote_injective`), 404 for the empty path / no such item -/
+def serveByPath (L : Lib) (enc : Str) : Outcome :=
+  match splitSlash enc with
+  | [] => .httpError 404
+  | segs =>
+    match nodeAt (fun seg nm => quote nm == seg) segs (.folder [] L) with
+    | some (.folder id _) => .resp 200 (.obj { id := some id, hasFolder := true })
+    | some (.file f) => .resp 200 (.obj { id := some f.id })
+    | none => .httpError 404
+
 def srvToken : Str := "tok".toList
 def srvSite : Str := "site-1".toList
 
@@ -416,6 +618,7 @@ def serve (L : Lib) (n : Nat) : Url → Outcome
   | .children site item => if site = srvSite then servePage L n item 0 else .httpError 404
   | .cursor item off => servePage L n item off
   | .raw _ => .httpError 404
+  | .byPath site enc => if site = srvSite then serveByPath L enc else .httpError 404
 
 def healthy (L : Lib) (n : Nat) : Transport := fun _ u => serve L n u
 
@@ -490,6 +693,8 @@ structure UrlT where
   itemA : Str
   itemB : Str
   itemC : Str
+  pathA : Str := []
+  pathB : Str := []
 
 /-- the string the client puts into `Request(...)`; `cursor` is only used by the Lean-side fake server -/
 def Url.render (T : UrlT) : Url → Str
@@ -499,5 +704,6 @@ def Url.render (T : UrlT) : Url → Str
   | .children sid (some i) => T.itemA ++ sid ++ T.itemB ++ i ++ T.itemC
   | .raw s => s
   | .cursor _ off => "lean-cursor:".toList ++ (toString off).toList
+  | .byPath sid enc => T.pathA ++ sid ++ T.pathB ++ enc
 
 end S2T.SP
